@@ -48,7 +48,8 @@ theorem gen_key_canonical : Gen.Replay.keyMask31 = 127 := by decide
 theorem gen_structure :
     Gen.Replay.registerAtomic = true ∧ Gen.Replay.registerBeforeDecrypt = true ∧
     Gen.Replay.replayReturnsBeforeDecrypt = true ∧ Gen.Replay.storesUnixSeconds = true ∧
-    Gen.Replay.storeUnconditional = true ∧ Gen.Replay.returnsUsed = true ∧ Gen.Replay.cleanerLocked = true := by decide
+    Gen.Replay.storeUnconditional = true ∧ Gen.Replay.returnsUsed = true ∧ Gen.Replay.cleanerLocked = true ∧
+    Gen.Replay.oneClockReadingPerPresentation = true ∧ Gen.Replay.registerUsesCallersReading = true := by decide
 
 theorem keyOf_eq (r : Bytes) : G.keyOf r = clear255 r := by
   unfold G.keyOf canon clear255; rw [gen_key_canonical]; rfl
@@ -425,6 +426,32 @@ theorem c08_retention_witness_pinned :
     let p : Pkt := ⟨List.replicate 32 7, true, true, 1000⟩
     let h := [Ev.present p 1000000000000, Ev.clean 1001000000000, Ev.present p 1002000000000]
     ((h.foldl (stepEv pinnedEvict (canon 127) pinnedWin) init).acc).length = 2 := by decide
+
+/-- **the defect repaired by /repo's "one reading of the clock" fix** (found by the second red-team round): `Replay.present`
+uses ONE server time per presentation.  The tree before the fix read the clock twice — `registerRandom` stamped the entry
+with the first reading, `decryptClientInfo` judged the window with a later one.  With the current eviction rule
+(`t·10⁹ < now − 2·tolerance`) and window: first reading 1 ms before second 1001 (entry time 1000), window reading 1 ms
+after it, packet timestamp 1181 (client 179.999 s ahead) — accepted; pass at 1360.5 s — entry 1000 < 1000.5 evicted;
+presentation at 1360.6 s — the timestamp is still inside the window: accepted AGAIN.  `present2` is `present` with the two
+readings kept apart; the harness replays this history on the real code with a clock that moves 2 ms per reading
+(`c08plans` case 3). -/
+def present2 (keyOf : Bytes → Bytes) (inWin : Int → Int → Bool) (s : St) (p : Pkt) (nowReg nowWin : Int) : St × Out :=
+  if p.reg = false then (s, .early)
+  else
+    let (c, u) := register s.cache (keyOf p.rand) nowReg
+    if u then (⟨c, s.acc⟩, .replay)
+    else if p.ok && inWin p.ts nowWin then (⟨c, s.acc ++ [(p, nowWin)]⟩, .accept)
+    else (⟨c, s.acc⟩, .reject)
+
+theorem c08_two_readings_witness :
+    let p : Pkt := ⟨List.replicate 32 7, true, true, 1181⟩
+    let s1 := (present2 G.keyOf G.inWin init p 1000999000000 1001001000000).1
+    let s2 := G.clean s1 1360500000000
+    let s3 := (G.present s2 p 1360600000000).1
+    s3.acc.length = 2 ∧
+    -- with one reading (the repaired code) the first presentation is outside the window and nothing is accepted twice
+    ((G.present (G.clean (G.present init p 1000999000000).1 1360500000000) p 1360600000000).1).acc.length ≤ 1 := by
+  decide
 
 /-- retention of ONE tolerance is not enough either (client clock 179 s ahead) -/
 theorem c08_one_tol_insufficient :
